@@ -48,6 +48,8 @@ type Ctl struct {
 	parked     map[uint64]bool
 	// NewRole names a goroutine first seen at a birth point.
 	NewRole func(point string, obj any) string
+	// PassFn, when set, decides per call whether a (non-exit, non-park) point passes without blocking.
+	PassFn func(point string, obj any) bool
 	// OnPass is called (with the controller lock held) for every pass-through point.
 	OnPass func(role, point string, obj, arg any)
 	// Free, when set, turns every hook into a no-op (used to let a finished scenario drain).
@@ -128,7 +130,10 @@ func (c *Ctl) hook(point string, obj any, arg any, filter bool) {
 		c.mu.Unlock()
 		return
 	}
-	if c.Pass[point] {
+	if c.Pass[point] || (c.PassFn != nil && c.PassFn(point, obj)) {
+		if c.SpawnPoints[point] {
+			c.pendingSpawn++
+		}
 		if c.OnPass != nil {
 			c.OnPass(role, point, obj, arg)
 		}
@@ -349,4 +354,22 @@ func (c *Ctl) Parked() int {
 	c.mu.Lock()
 	defer c.mu.Unlock()
 	return len(c.parked)
+}
+
+// Do runs fn in the calling goroutine as a controlled thread: hook points it passes are seen by the
+// controller (spawn announcements are counted) and the call counts as running until it returns.
+func (c *Ctl) Do(role string, fn func()) {
+	gid := GoID()
+	c.mu.Lock()
+	c.running++
+	c.roles[gid] = role
+	c.mu.Unlock()
+	defer func() {
+		c.mu.Lock()
+		c.running--
+		delete(c.roles, gid)
+		c.cond.Broadcast()
+		c.mu.Unlock()
+	}()
+	fn()
 }
